@@ -25,3 +25,7 @@ def run(P, R, tier):
     memo.check_class(P, R, owneng.Own(P), "GMMMachine")
     from ..engines import traps as _traps
     _traps.check(P, R, ['gmm'], scope='gmm:GMMMachine\\.(variances|weights|variance_thresholds|g_norms|log_weights|means|fit|__init__|initialize_gaussians)\\b')
+    # floors before variances wherever both are assigned on one object (constructors, load, copies, hand-overs)
+    from .C18 import check_setter_order as _cso
+    for f_ in P.all_funcs(["gmm"]):
+        _cso(P, R, f_, f_.node.body, "setter order", "ORDER.floors-first")
